@@ -610,7 +610,7 @@ func c10JsonCheckGeneral(rep *Report, d []byte, bucket string) {
 		switch u.g {
 		case json.StartObjectGrammar, json.StartArrayGrammar:
 			if expectKey {
-				rep.Violate("nonstring-key:container-accepted", fmt.Sprintf("%q: a %v unit is returned where an object key is required (no parse error at that point)", d, u.g), c10JsonReplay(d))
+				rep.Violate("nonstring-key:"+hx(d), fmt.Sprintf("%q: a %v unit is returned where an object key is required (no parse error at that point)", d, u.g), c10JsonReplay(d))
 			}
 			if u.g == json.StartObjectGrammar {
 				stack = append(stack, 'o')
@@ -668,15 +668,20 @@ func c10JsonCheckGeneral(rep *Report, d []byte, bucket string) {
 			rep.Violate("state:"+hx(d), fmt.Sprintf("%q: State() after call %d is %v but the open containers are %q", d, i, u.state, stack), c10JsonReplay(d))
 		}
 	}
-	// stickiness of the error report (C01 reading recorded in DESIGN section 6)
+	// the end-of-input report is repeated: once Err() is io.EOF after an ErrorGrammar, it stays so and no
+	// further unit is returned (a caller may keep calling after a *parse* error and get units again: allowed)
 	if firstErr >= 0 {
-		for j := firstErr + 1; j < len(units); j++ {
-			if units[j].g != json.ErrorGrammar {
-				rep.Violate("sticky:error-then-unit", fmt.Sprintf("%q: call %d returns ErrorGrammar, call %d returns %v", d, firstErr, j, units[j].g), c10JsonReplay(d))
+		eofAt := -1
+		for j := firstErr; j < len(units); j++ {
+			if units[j].g == json.ErrorGrammar && units[j].errKind == 1 && eofAt < 0 {
+				eofAt = j
+			}
+			if eofAt >= 0 && j > eofAt && (units[j].g != json.ErrorGrammar || units[j].errKind != 1 || units[j].state != units[eofAt].state) {
+				rep.Violate("sticky-eof:"+hx(d), fmt.Sprintf("%q: io.EOF reported by call %d, call %d returns %v (Err kind %d, state %v)", d, eofAt, j, units[j].g, units[j].errKind, units[j].state), c10JsonReplay(d))
 				break
 			}
-			if units[firstErr].errKind == 1 && units[j].errKind != 1 {
-				rep.Violate("sticky:eof-then-parse-error", fmt.Sprintf("%q: Err() is io.EOF after call %d and a parse error after call %d", d, firstErr, j), c10JsonReplay(d))
+			if units[j].errKind == 0 {
+				rep.Violate("err-nil-again:"+hx(d), fmt.Sprintf("%q: Err() is nil again after call %d", d, j), c10JsonReplay(d))
 				break
 			}
 		}
@@ -722,17 +727,11 @@ func c10JsonExpectErrorAt(rep *Report, d []byte, want int, what string) {
 	last := units[len(units)-1]
 	if last.g != json.ErrorGrammar || last.errKind != 2 {
 		key := "listed:" + what + ":" + hx(d)
-		if what == "nonstring-key-container" {
-			key = "nonstring-key:container-accepted"
-		}
 		rep.Violate(key, fmt.Sprintf("%s in %q at offset %d: no parse error (Err kind %d)", what, d, want, last.errKind), c10JsonReplay(d))
 		return
 	}
 	if last.errOff != int64(want) {
 		key := "listed-at:" + what + ":" + hx(d)
-		if what == "nonstring-key-container" {
-			key = "nonstring-key:container-accepted"
-		}
 		rep.Violate(key, fmt.Sprintf("%s in %q: parse error at offset %d, expected at %d", what, d, last.errOff, want), c10JsonReplay(d))
 	}
 }
